@@ -59,7 +59,7 @@ def run(ck):
                        "from one part can share labels with the other part, and they would be scored twice (as C08.6)")
     from ..report import RuleView
     from . import c08
-    c08._joined_row(RuleView(ck, {"C08.6": "C04.9"}))
+    c08._joined_row(RuleView(ck, {"C08.6": "C04.9"}, only_constructs=(":segments", ":only-resolved")))
     ck.clause("C04.11", "the conflicting sub-run handed to the trim reaches to the end of the overlap whatever unpaired labels lie in it "
                         "(slice window, as C15.4): a sub-run cut short leaves labels in both segments, scored twice")
     from .c15 import slice_window
@@ -233,7 +233,7 @@ def wiring(ck):
 
 
 # ------------------------------------------------------------------------------------------------------------ C04.2
-def ownership(ck):
+def ownership(ck, rows=True):
     ctx = ck.ctx
     p = ctx.p
     seg = p.find_class("AlignmentSegment")
@@ -346,6 +346,8 @@ def ownership(ck):
                      f"{cname} is constructed only by getScoredPosition (nothing downstream re-scores a position)",
                      found=f"constructed in {short(site.caller)}", required="only inside getScoredPosition")
     # (e) who may construct result rows with a confidence
+    if not rows:
+        return
     rowc = p.find_class("AlignmentResultRow")
     rcreate = p.lookup_method(rowc, "create", None)
     for site in ctx.cg.sites_constructing(rowc):
